@@ -23,7 +23,13 @@ def run(ctx):
                 'vs the wrapped table on two passes. Non-trivial: at least one data row.')
     ctx.assumptions += ['csv.writer.writerow / pickle.dump / str.format render one row independently of the others (checked: the file '
                         'equals the concatenation of single-row files)']
-    ctx.prove(['PetlProofs.Props.C16'], REQUIRED)
+    from translators import fingerprints as _fp
+    try:
+        _fpi = _fp.generate()
+        ctx.bridge('translator: fingerprints of the petl functions the hand-written models mirror (%d bodies)' % _fpi['names'], True)
+    except Exception as e:   # noqa
+        ctx.bridge('translator: source fingerprints extracted', False, repr(e))
+    ctx.prove(['PetlProofs.Props.C16', 'PetlProofs.Snapshot.C16'], REQUIRED + ['Petl.Snapshot.C16_sources_as_validated'])
     rng = ctx.rng
     tmpd = tempfile.mkdtemp(prefix='petl_c16_')
     n = 800 if ctx.thorough() else 120
